@@ -63,7 +63,7 @@ func (o *signalHandler) addSignalUser(userID uint64, signalID, messageID uint32,
 		messageID: messageID,
 		userID:    userID,
 		context:   from,
-		contextID: 0,
+		contextID: -1, // not watched yet
 	}
 
 	// refuse duplicates before anything is registered: the existing
@@ -88,10 +88,21 @@ func (o *signalHandler) addSignalUser(userID uint64, signalID, messageID uint32,
 		// may already belong to another handler).
 		o.forgetSignalUser(userID, from)
 	}
-	newUser.contextID = e.MakeHandler(f, q, cl)
-
+	// the user is recorded before its connection is watched: if the
+	// connection is lost meanwhile (or is lost already), the closer
+	// finds the user and forgets it.
 	o.signalsMutex.Lock()
 	o.signals = append(o.signals, newUser)
+	o.signalsMutex.Unlock()
+
+	contextID := e.MakeHandler(f, q, cl)
+
+	o.signalsMutex.Lock()
+	for i, user := range o.signals {
+		if user.userID == userID && user.context.EndPoint() == e {
+			o.signals[i].contextID = contextID
+		}
+	}
 	o.signalsMutex.Unlock()
 	return nil
 
